@@ -416,6 +416,10 @@ func (a *AMF) buildUEContextReleaseCommand(u *ue) ([]byte, error) {
 	ie.Value.Present = ngapType.UEContextReleaseCommandIEsPresentUENGAPIDs
 	ie.Value.UENGAPIDs = &ngapType.UENGAPIDs{Present: ngapType.UENGAPIDsPresentUENGAPIDPair,
 		UENGAPIDPair: &ngapType.UENGAPIDPair{AMFUENGAPID: ngapType.AMFUENGAPID{Value: int64(u.amfID)}, RANUENGAPID: ngapType.RANUENGAPID{Value: int64(u.ranID)}}}
+	if u.ch.Has(OptRelCmdAMFIDOnly) {
+		// TS 38.413 9.3.3.2: the AMF may name the UE by the AMF UE NGAP ID alone
+		ie.Value.UENGAPIDs = &ngapType.UENGAPIDs{Present: ngapType.UENGAPIDsPresentAMFUENGAPID, AMFUENGAPID: &ngapType.AMFUENGAPID{Value: int64(u.amfID)}}
+	}
 	l.List = append(l.List, ie)
 	ie = ngapType.UEContextReleaseCommandIEs{}
 	ie.Id.Value = ngapType.ProtocolIEIDCause
@@ -479,7 +483,7 @@ func WithLaterIEs(b []byte, n int, salt int) ([]byte, error) {
 	body := append([]byte{}, b[p:]...)
 	cnt := int(body[1])<<8 | int(body[2])
 	for i := 0; i < n; i++ {
-		id := 300 + (salt*7+i*13)%200 // 300..499: not assigned by the release the library implements (ids end at 150)
+		id := 300 + (salt*7+i*13)%60000 // 300..60299: not assigned by the release the library implements (ids end at 150)
 		vl := (salt + 3*i) % 6
 		ie := []byte{byte(id >> 8), byte(id), 0x40, byte(vl)}
 		for k := 0; k < vl; k++ {
